@@ -60,11 +60,13 @@ package compress
 //@ func (srv *compressSrv) Gunzip(data []byte) (out []byte, err error)
 //@   requires [recv] srv != nil
 //@   nopanic
+//@   ensures [valid-ok] validGzip(contents(data)) ==> err == nil
 //@   ensures [codec] err == nil ==> contents(out) == gzipDec(contents(data))
 
 //@ func (srv *compressSrv) BrotliDecode(data []byte) (out []byte, err error)
 //@   requires [recv] srv != nil
 //@   nopanic
+//@   ensures [valid-ok] validBr(contents(data)) ==> err == nil
 //@   ensures [codec] err == nil && len(data) != 0 ==> contents(out) == brDec(contents(data))
 
 //@ func NewService() (srv *compressSrv)
@@ -103,28 +105,33 @@ package compress
 //@ spec func snzDec(b Bytes) Bytes
 //@ spec func zstDec(b Bytes) Bytes
 //@ spec func decodeOf(enc string, b Bytes) Bytes := (enc == "gzip") ? gzipDec(b) : ((enc == "br") ? brDec(b) : ((enc == "lz4") ? lz4Dec(b) : ((enc == "snz") ? snzDec(b) : ((enc == "zst") ? zstDec(b) : b))))
+//@ pred validFor(enc string, b Bytes) := (enc == "gzip" ==> validGzip(b)) && (enc == "br" ==> validBr(b)) && (enc == "lz4" ==> validLZ4(b)) && (enc == "snz" ==> validSnz(b)) && (enc == "zst" ==> validZst(b))
 //@ pred knownEncoding(enc string) := enc == "gzip" || enc == "br" || enc == "lz4" || enc == "snz" || enc == "zst" || enc == ""
 //@ axiom [compress-errors]: notSupportedEncoding != nil
 
 //@ func (srv *compressSrv) LZ4Decode(data []byte) (out []byte, err error)
 //@   requires [recv] srv != nil
 //@   nopanic
+//@   ensures [valid-ok] validLZ4(contents(data)) ==> err == nil
 //@   ensures [codec] err == nil ==> contents(out) == lz4Dec(contents(data))
 
 //@ func (srv *compressSrv) SnappyDecode(data []byte) (out []byte, err error)
 //@   requires [recv] srv != nil
 //@   nopanic
+//@   ensures [valid-ok] validSnz(contents(data)) ==> err == nil
 //@   ensures [codec] err == nil ==> contents(out) == snzDec(contents(data))
 
 //@ func (srv *compressSrv) ZSTDDecode(data []byte) (out []byte, err error)
 //@   requires [recv] srv != nil
 //@   nopanic
+//@   ensures [valid-ok] validZst(contents(data)) ==> err == nil
 //@   ensures [codec] err == nil ==> contents(out) == zstDec(contents(data))
 
 // each documented encoding name goes to its own decoder, "" is the identity, anything else an error
 //@ func (srv *compressSrv) Decompress(encoding string, data []byte) (out []byte, err error)
 //@   requires [recv] srv != nil
 //@   nopanic
+//@   ensures [valid-ok] knownEncoding(encoding) && validFor(encoding, contents(data)) ==> err == nil
 //@   ensures [dispatch] err == nil && (encoding != "br" || len(data) != 0) ==> contents(out) == decodeOf(encoding, contents(data))
 //@   ensures [unknown]  !knownEncoding(encoding) ==> err != nil
 //@   ensures [identity] encoding == "" ==> err == nil && out == data
@@ -162,12 +169,15 @@ package compress
 //@   ensures [no-error] err == nil
 //@   ensures [codec] err == nil ==> contents(out) == brEnc(contents(buf), brLevel(level))
 
+// every valid stream decodes (valid: what the standard decoder of the format restores)
 //@ func doGunzip(buf []byte) (out []byte, err error)
 //@   nopanic
+//@   ensures [valid-ok] validGzip(contents(buf)) ==> err == nil
 //@   ensures [codec] err == nil ==> contents(out) == gzipDec(contents(buf))
 
 //@ func doBrotliDecode(buf []byte) (out []byte, err error)
 //@   nopanic
+//@   ensures [valid-ok] validBr(contents(buf)) ==> err == nil
 //@   ensures [codec] err == nil && len(buf) != 0 ==> contents(out) == brDec(contents(buf))
 //@   ensures [empty] len(buf) == 0 ==> err == nil && len(out) == 0
 
@@ -182,8 +192,10 @@ package compress
 
 //@ func doSnappyDecode(buf []byte) (out []byte, err error)
 //@   nopanic
+//@   ensures [valid-ok] validSnz(contents(buf)) ==> err == nil
 //@   ensures [codec] err == nil ==> contents(out) == snzDec(contents(buf))
 
 //@ func doZSTDDecode(buf []byte) (out []byte, err error)
 //@   nopanic
+//@   ensures [valid-ok] validZst(contents(buf)) ==> err == nil
 //@   ensures [codec] err == nil ==> contents(out) == zstDec(contents(buf))
